@@ -199,6 +199,19 @@ def gen_all(ctx):
         scs.append(S.runnable(lambda: S.force_bw_nfft(rng, S.gen_scenario(rng, "multi_taper_csd", nmax=16 if q else 32, max_ch=2 if q else 4), idx=_)))
     for _ in range(ctx.scale(2, 12)):
         scs.append(S.runnable(lambda: S.force_few_tapers(rng, S.gen_scenario(rng, "multi_taper_csd", nmax=16 if q else 32, max_ch=2 if q else 4))))
+    # BOTH NW and BW in one call (conflicting / agreeing), directly and through get_spectra's method dict
+    for i in range(ctx.scale(6, 24)):
+        sc = S.runnable(lambda: S.force_both_nw_bw(rng, S.gen_scenario(rng, "multi_taper_csd", nmax=18 if q else 32, max_ch=2,
+                                                                        lead=[2], layout="C"), i))
+        if i % 3 == 2:
+            sc["via_get_spectra"] = True
+        scs.append(sc)
+    # option combinations as small full factorials
+    scs += S.combo_plan(rng, "multi_taper_csd")
+    if not q:
+        scs += S.combo_plan(rng, "periodogram_csd")
+    else:
+        scs += S.combo_plan(rng, "periodogram_csd")[::2]
     # BW * N / Fs exactly on a half-integer (np.round: half to even), k even / odd, and one ulp either side
     for i in range(ctx.scale(8, 32)):
         scs.append(S.force_bw_tie(rng, S.gen_scenario(rng, "multi_taper_csd", nmax=20, max_ch=2, lead=[2], layout="C"), i))
